@@ -67,6 +67,7 @@ def all_trees(nops, leaves=('A', 'B')):
     return out
 
 
+@common.part
 def eval_obligation(chk, prop, obs):
     """`<TagOperation as tag::Ext>::eval` (and whatever it calls) on MIR for EVERY expression tree with <= 3 operator nodes
     (and / or / not over two tag names; 1112 trees) over tag lists of 0, 1 and 2 symbolic strings: the result equals the
